@@ -1,6 +1,7 @@
 from common import COMMON_ASSUME
 
 PROP = dict(
+    timeout_is_violation=True,   # C14 claims termination
     technique='fuzzing (libFuzzer, thorough tier) and property-based testing of raw, truncated, mutated and structured hostile inputs on exact-size heap copies under ASan, with an allocation-size interposer and a per-case alarm',
     harness=['c14_hostile.c', 'vf_arr.c', 'vf_ref.c'],
     alloc=True,
